@@ -179,7 +179,7 @@ theorem relTo_append (b r : Path) : relTo b (b ++ r) = some r := by
     rw [List.isPrefixOf_iff_prefix]; exact List.prefix_append b r
   simp [this]
 
-theorem emittedAbs_eq (i : Invocation) (us : List Unit) :
+theorem emittedAbs_eq (i : Invocation) (us : List GenUnit) :
     emittedAbs i us = (emittedRel us).map (fun r => i.outRoot ++ r) := by
   unfold emittedAbs emittedRel Invocation.outRoot outputDir
   induction us with
